@@ -256,7 +256,7 @@ func c05GenSeq(r *verifh.Rng) []verifh.Section {
 			for _, ops := range c05Enumerate([]string{"try", "borrow", "return", "probe"}, 5) {
 				secs = append(secs, verifh.Section{Cfg: fmt.Sprintf("kind=tlimit mode=seq n=%d", n), Ops: ops})
 			}
-			for _, ops := range c05Enumerate([]string{"get", "getw", "put @0", "put @1", "t+ 11", "t+ 5"}, 5) {
+			for _, ops := range c05Enumerate([]string{"get", "getw", "put @0", "put @1", "t+ 11", "t+ 5"}, 4) {
 				secs = append(secs, verifh.Section{Cfg: fmt.Sprintf("kind=pool mode=seq n=%d maxage=10 breach=0", n),
 					Ops: append(append([]string(nil), ops...), "stat")})
 			}
